@@ -166,8 +166,10 @@ class Relay(recorded.Module):
 
     # labels a missed deadline of a healthy party produces (the shortened request / registration timeouts of the
     # fault and registration sessions are 300 / 400 ms)
+    # (C17-malformed-synchronized: a late registrant - stall class lateregister - that the runtime got round to only
+    # after more than half a second would still be in time; a real acceptance of a malformed plugin recurs)
     TIMING = {"C07-healthy-plugin-dropped", "C07-latency", "C17-wellformed-not-activated",
-              "C17-registration-latency", "C08-registration-stuck"}
+              "C17-registration-latency", "C08-registration-stuck", "C17-malformed-synchronized"}
 
     def timing_sensitive(self, r):
         return r["label"] in self.TIMING and r["trace"] in ("faults", "regs") and r["scn"] >= 1
